@@ -361,10 +361,15 @@ def modes_agree(ctx, fn: FuncInfo) -> tuple[bool, str]:
     def twin_key(st):
         if isinstance(st, ast.Assign) and len(st.targets) == 1 and isinstance(st.targets[0], ast.Name) and isinstance(st.value, (ast.Name, ast.Constant)):
             return unparse(st)
+        # `if dry: return cs` ... write ... `return cs`: the same value is returned in both modes
+        if isinstance(st, ast.Return) and (st.value is None or isinstance(st.value, (ast.Name, ast.Constant))):
+            return unparse(st)
         return None
 
     dry_keys = [twin_key(st) for st in dry_only]
-    common = {k for k in (twin_key(st) for st in real_only) if k is not None and k in dry_keys}
+    stored_in_real = {x.id for st in real_only for x in ast.walk(st) if isinstance(x, ast.Name) and isinstance(x.ctx, ast.Store)}
+    common = {k for st in real_only for k in [twin_key(st)] if k is not None and k in dry_keys
+              and not (isinstance(st, ast.Return) and {x.id for x in ast.walk(st) if isinstance(x, ast.Name)} & stored_in_real)}
     if common:
         real_only = [st for st in real_only if twin_key(st) not in common]
         dry_only = [st for st in dry_only if twin_key(st) not in common]
